@@ -16,6 +16,9 @@ open Proto Load
            tidy  merged (current code) | cfg (code before the repair)
            prep  `-` | `dup:e:src:dst,del:m:name,…`
         -> ok exp=<arr|none> mc=<arr|none> | err <class>
+      dss <fmt> <mode> <bs> <stages> <cfgFields> <dsFields> <expRen> <mcRen> <keep> <conv> <exc|*> <prep> <livetime>
+          <expfiles|-> <mcfiles|->      one load of a history on a shared Config
+        -> cfg=<cfg['datafields'] after the load> ok exp=… mc=… | cfg=… err <class>
       keepf <dpExp,dpMc,anExp,anMc> <cfgFields> <dsFields> <expRen> <mcRen> <keep>  -> exp=<names> mc=<names>
       orcheck <stage> <stages>  -> 0|1
 -/
@@ -109,6 +112,19 @@ def answer (line : String) : String :=
         (List.range ef.length) ((List.range mf.length).map (· + ef.length)) (pB lt) with
     | .ok (e, m) => s!"ok exp={fOpt e} mc={fOpt m}"
     | .error e => "err " ++ fErr e
+  | ["dss", fmt, mode, bs, st, cfgF, dsF, eRen, mRen, keep, conv, exc, prep, lt, eFiles, mFiles] =>
+    -- one load of a history on a shared Config: post-state of cfg['datafields'] + the result
+    let ef := pFiles eFiles
+    let mf := pFiles mFiles
+    let fs := mkFs (ef ++ mf)
+    let c : DsCfg String DT := ⟨pTable cfgF, pTable dsF, pRen eRen, pRen mRen, pList id keep, pConv conv,
+      if exc == "*" then none else some (pList id exc)⟩
+    let (post, res) := loadAndPrepareS (pStages st) (loader fmt (pMode mode) (pN bs) fs) (prepRun (pPrep prep)) c
+        (List.range ef.length) ((List.range mf.length).map (· + ef.length)) (pB lt)
+    let cfgS := fListD (fun (p : String × Nat) => s!"{p.1}:{p.2}") post
+    match res with
+    | .ok (e, m) => s!"cfg={cfgS} ok exp={fOpt e} mc={fOpt m}"
+    | .error e => s!"cfg={cfgS} err " ++ fErr e
   | ["keepf", st, cfgF, dsF, eRen, mRen, keep] =>
     let c : DsCfg String DT := ⟨pTable cfgF, pTable dsF, pRen eRen, pRen mRen, pList id keep, [], none⟩
     s!"exp={fListD id (keepExp (pStages st) c)} mc={fListD id (keepMc (pStages st) c)}"
